@@ -139,7 +139,7 @@ func isUnder(paths []string, dir string) bool {
 }
 
 // refOptions lists the ways a file at target can be named from an importer.
-func refOptions(paths []string, importerDir string, hasDir bool, target string) []refOpt {
+func refOptions(paths []string, home, importerDir string, hasDir bool, target string) []refOpt {
 	ext := filepath.Ext(target)
 	if strings.HasSuffix(target, "/.jq") {
 		return nil
@@ -162,6 +162,11 @@ func refOptions(paths []string, importerDir string, hasDir bool, target string) 
 				}
 			}
 			out = append(out, refOpt{name, rootMark + "/" + base, true})
+			if home != "" && strings.HasPrefix(base+"/", home+"/") {
+				if rel, err := filepath.Rel(home, base); err == nil {
+					out = append(out, refOpt{name, "~/" + rel, true})
+				}
+			}
 		}
 	}
 	return out
@@ -225,7 +230,7 @@ func genDirective(t *rapid.T, mdl *model, lay layout, importerDir string, hasDir
 		ext = ".json"
 	}
 	var valid []refOpt
-	for _, o := range refOptions(mdl.paths, importerDir, hasDir, target) {
+	for _, o := range refOptions(mdl.paths, mdl.c.Home, importerDir, hasDir, target) {
 		d := directive{Kind: kind, Name: o.name, Meta: o.meta()}
 		if got, _, _ := mdl.resolve(importerDir, hasDir, d, ext); got == ti {
 			valid = append(valid, o)
